@@ -51,7 +51,7 @@ USES_JAX = True
 RULE = (
     "buffers: BFS over op histories {add (c/T/U for subtrajectory buffers), sample_batch(2, ...) with "
     "np.random.default_rng(k) for 3 values of k (covering both sampling views / two beta values), update_priority with "
-    "[2,0.5] / [0.25,0.125] / scalar 3.0, reset_max_priority, select_task(0|1)} of the real buffer objects to depth D; two "
+    "[2.1,0.3] / [0.7,0.15] / scalar 3.7, reset_max_priority, select_task(0|1)} of the real buffer objects to depth D; two "
     "states are merged only when the complete visible object state (every attribute, array bytes of the written prefix, "
     "dtype, shape, scalars, key order) and the add counter are identical. EVERY reached state is a save point: pickle "
     "round trip with every protocol 2..HIGHEST, a second-generation round trip, then every op sequence of length <= C "
@@ -111,7 +111,7 @@ BUFS = {
     "MultiTask-LAP": dict(cls="LAP", cap=2, tasks=2),
     "MultiTask-SubPER": dict(cls="SubtrajectoryReplayBufferPER", cap=3, H=1, tasks=2),
 }
-PVALS = [[2.0, 0.5], [0.25, 0.125], 3.0]
+PVALS = [[2.1, 0.3], [0.7, 0.15], 3.7]  # none is representable in float32 (a lossy save must show)
 
 
 def entry_name(cfg):
@@ -332,12 +332,12 @@ def run_op(buf, op, g, cfg):
         if k == "a":
             tgt = buf.buffers[buf.selected_task] if cfg.get("tasks") else buf
             first = tgt.current_len == 0
-            v = float(g + cfg["seed"] % 7)
+            v = float(g + cfg["seed"] % 7) + 0.1  # tag of this transition; v, v+0.2, ... are not representable in float32
             if cfg.get("custom"):
                 kw = dict(a=np.array([v, v + 0.5]), b=g % 100)
             else:
-                act = (g % 3) if cfg.get("discrete") else np.array([v + 0.5])
-                kw = dict(observation=np.array([v, 1.0]), action=act, reward=v + 0.25, next_observation=np.array([v + 1.0, 1.0]))
+                act = (g % 3) if cfg.get("discrete") else np.array([v + 0.2])
+                kw = dict(observation=np.array([v, 1.0 / 3.0]), action=act, reward=v + 0.3, next_observation=np.array([v + 1.0, 1.0 / 3.0]))
                 if cfg.get("H"):
                     kw.update(terminated=op[1] == "T", truncated=op[1] == "U")
                 else:
@@ -742,7 +742,8 @@ def module_item(item, col):
     if pset == "perturbed":
         perturb(m, s)
     xs = inputs(kind, s)
-    tmp = tempfile.mkdtemp(prefix="c19-")
+    tmp = tempfile.mkdtemp(prefix=f"c19-{os.getpid()}-")
+    _TMP["dir"] = tmp
     try:
         with quiet():
             ock = OrbaxCheckpointer(checkpoint_dir=os.path.join(tmp, "orbax"))
@@ -862,9 +863,28 @@ def module_item(item, col):
                         variable_types=sorted({t for _, t in versions[0]["vtypes"]})))
     finally:
         shutil.rmtree(tmp, ignore_errors=True)
+        _TMP["dir"] = None
 
 
 # ==========================================================================================
+
+_TMP = {"dir": None}
+
+
+def _cleanup_and_exit(signum, frame):  # the pool terminates its workers with SIGTERM when the wall-clock cap trips
+    if _TMP["dir"]:
+        shutil.rmtree(_TMP["dir"], ignore_errors=True)
+    os._exit(0)
+
+
+def _remove_stale_scratch():
+    """Scratch directories of C19 workers that no longer exist (killed before their `finally` ran)."""
+    root = tempfile.gettempdir()
+    for name in os.listdir(root):
+        parts = name.split("-")
+        if len(parts) >= 3 and parts[0] == "c19" and parts[1].isdigit() and not os.path.exists(f"/proc/{parts[1]}"):
+            shutil.rmtree(os.path.join(root, name), ignore_errors=True)
+
 
 
 def items(tier, seed):
@@ -876,6 +896,15 @@ def worker_init():
         import absl.logging
 
         absl.logging.set_verbosity(absl.logging.ERROR)
+    except Exception:  # noqa: BLE001
+        pass
+    try:
+        import multiprocessing
+        import signal
+
+        if multiprocessing.current_process().name != "MainProcess":  # pool workers only, never the runner itself
+            signal.signal(signal.SIGTERM, _cleanup_and_exit)
+        _remove_stale_scratch()
     except Exception:  # noqa: BLE001
         pass
 
